@@ -55,6 +55,8 @@ def T():
 
 
 def mro_names(kind: str) -> list[str]:
+    if kind == "C19Late":   # not looked up here: the class is to come into existence when it is first RAISED (see tasks.c19_late_cls)
+        return ["C19Late"] + mro_names("RetryError")
     cls = T().c19_exc_types()[kind]
     return [c.__name__ for c in cls.__mro__ if c is not object]
 
@@ -438,6 +440,15 @@ def judge_stack(ctx: Ctx, prog: dict, confs: list, stack: str, r: dict, fam: str
         node, _ = node_at(prog, key)
         mr, rf = confs[node["cls"]]
         ex.sort()
+        foreign = sorted({i for (_, _, i) in ex if i != node["id"]})
+        if foreign:
+            # every call hands its callee the activation key of that callee: a body that runs under another member's key got
+            # another call's arguments
+            sig = f"arguments-of-another-call:{stack}"
+            sigs.add(sig)
+            ctx.report(sig, f"[{stack}] the body of node(s) {foreign} ran with the activation key {key}, which the program passes to node {node['id']}: "
+                            f"a call of a group received arguments of another call of the group", rep)
+            continue
         stale = [(k, s) for (k, s, _) in ex if s != k]
         if stale:
             sig = SIG_RACE if stack != "sync" and all(isinstance(s, int) and s < k for k, s in stale) else f"num-retries-inside-body:{stack}"
@@ -573,7 +584,7 @@ def fixed_families(rng) -> list[tuple[str, list, list[dict]]]:
         acc.append(leaf(1, 0, [], ["ret", 1], calls=[{"t": "group", "direct": bool(cls % 2), "ps": [leaf(2, cls, [R], ["ret", 2]), leaf(3, cls, [], ["ret", 3])]}]))
     fams.append(("accounting", confs, acc))
     ident = []
-    kinds = sorted(set(KINDS))
+    kinds = sorted(set(KINDS)) + ["C19Late"]
     for kind in kinds:
         for a in (ARGS if kind in ("RetryError", "C19SubErr", "KeyError") else [rng.choice(ARGS), ["later"]]):
             inner = leaf(2, 1, [], ["late", kind, a], direct=rng.random() < 0.5)
